@@ -20,7 +20,7 @@ import os
 import sys
 
 from symx import core, loader, shims
-from symx.core import SI, SBytes, check, s_and, s_or, s_not, norm, assume, bytes_env, Out, conc_value, wrapb, b_cmp, b_and
+from symx.core import SI, SBytes, check, s_and, s_or, s_not, norm, bytes_env, Out, wrapb, b_cmp, b_and
 from vlib.run import Ob, sym_run, merge_runs, conc_run
 
 PROPERTY = "C14"
@@ -33,39 +33,50 @@ META = {
         "quick": {"encode": "all byte strings of 16/20/24/28/32 bytes (every byte symbolic)",
                   "decode": "all index sequences of 12/15/18/21/24 words over [0,2048) (every index symbolic), each word given as the full "
                             "word or as its four-letter prefix (patterns: all full, all prefix, alternating)",
-                  "lengths": "word counts 0..33 and 48 other than 12/15/18/21/24; num_bits in {0,8,64,96,127,129,136,255,264,512}; one word "
-                             "outside the list at a symbolic... concrete position of a 12-word sequence",
-                  "secure_mnemonic": "num_bits in the five valid sizes, randbits(num_bits) and the microsecond clock symbolic, extra_entropy "
-                                     "in {0, 1, 2^num_bits-1, 2^num_bits+5, 2^300+7}",
+                  "lengths": "word counts 0..33 and 48 other than 12/15/18/21/24 (indices symbolic); num_bits in {0,8,64,96,127,129,136,255,"
+                             "264,512}; one token outside the list at position 0, 5 or 11 of a 12-word sequence",
+                  "secure_mnemonic": "num_bits in the five valid sizes (and five invalid ones), randbits(num_bits) and the microsecond clock "
+                                     "symbolic, extra_entropy in {0, 1, 2^num_bits-1, 2^num_bits+5, 2^300+7}",
                   "pbkdf2": "passphrase lengths {1,5,129} x salt lengths {0,8,20}, all bytes symbolic, rounds {1,2,3}, SHA-512 (64-byte "
-                            "blocks) and the class default SHA-1, read patterns (64), (20,44,1), (130), (1)",
-                  "kdf": "hmac_sha512_kdf with 2048 rounds: passphrase 5 or 60 symbolic bytes, salt 8 or 12 symbolic bytes",
-                  "seed": "from_mnemonic for 12 and 24 symbolic words (full / prefix forms), password of 0,1,4,9 symbolic bytes (all byte "
-                          "values, so non-ASCII included); from_seed for seeds of 16/32/64 symbolic bytes"},
-        "thorough": {"encode": "same", "decode": "same plus the pattern 'prefix for the last word only' and 'full for the last word only'",
+                            "blocks) and the class default SHA-1 (20-byte blocks), read patterns (64), (20,44,1), (130), (1): 1..4 blocks, "
+                            "buffered partial reads",
+                  "kdf": "hmac_sha512_kdf (2048 rounds, one 64-byte block): 60 symbolic passphrase bytes with 12 symbolic salt bytes; a 59-"
+                         "character str passphrase with 8 symbolic salt bytes",
+                  "seed": "from_mnemonic, hmac_sha512_kdf as a seam: 12/15/18/21/24 symbolic words x (forms, password bytes) in {(full,0), "
+                          "(alternating,1), (prefix,4), (full,9)}, password bytes symbolic over all 256 values (non-ASCII included); "
+                          "from_mnemonic end to end through the 2048-round chain: (12 words, alternating, 4 password bytes) and (24 words, "
+                          "full, 9 password bytes); from_seed for seeds of 16/32/64 symbolic bytes"},
+        "thorough": {"encode": "same", "decode": "same plus the patterns 'prefix for the last word only' and 'full for the last word only'",
                      "lengths": "word counts 0..64 and 96", "secure_mnemonic": "same",
-                     "pbkdf2": "passphrase lengths {0,1,5,64,128,129,200} x salt lengths {0,1,8,20,64}, rounds {1,2,3,4,10,2048}",
-                     "kdf": "passphrase {1,5,60,150} x salt {8,9,12,40}",
-                     "seed": "all five word counts x three form patterns x password lengths {0,1,2,4,9,33}"}},
+                     "pbkdf2": "passphrase lengths {0,1,5,64,128,129,200} x salt lengths {0,1,8,20,64}, rounds {1,2,3,4,10}; rounds 2048 for "
+                               "passphrase {1,129} x salt {0,8,20}",
+                     "kdf": "passphrase {1,5,60,150} (bytes and str) x salt {8,9,12,40}",
+                     "seed": "seam: all five word counts x three form patterns x password lengths {0,1,2,4,9,33}; end to end: five word "
+                             "counts x {(full,0),(alternating,1),(prefix,9),(full,33)}"}},
     "outside": ["Unicode NFKD normalisation of mnemonic and passphrase (the library does none; passwords are bytes in this API, a str "
                 "password raises TypeError at b'mnemonic' + password)",
                 "upper-case or otherwise non-list words beyond 'one unknown token is rejected'",
                 "bytes_to_mnemonic called with num_bits != 8*len(b) (outside the property's quantifier; the function then encodes the low "
                 "bits only)",
-                "randomness quality of secure_mnemonic; a symbolic extra_entropy (bin() of it is a string operation) — concrete values only",
+                "randomness quality of secure_mnemonic; a symbolic extra_entropy (bin() of it is a string operation) - concrete values only",
                 "EC multiplication secret*G in PrivateKey.__init__ (the generator is a stand-in; C03/C12 own the group law and child "
-                "derivation); from_mnemonic with a path other than 'm'",
+                "derivation); from_mnemonic with a path other than 'm'; xprv() serialisation of the master key (C12)",
                 "'accepted exactly when' is decided up to the uninterpreted sha256: the implementation accepts iff the specification's "
-                "checksum equation holds for the same hash symbol"],
+                "checksum equation holds for the same hash symbol",
+                "from_mnemonic -> master key is shown compositionally: (a) the real chain up to the seed handed to from_seed, (b) with "
+                "hmac_sha512_kdf replaced by a recorder returning 64 fresh symbolic bytes, the real from_seed/PrivateKey/HDPrivateKey code "
+                "on that output, (c) from_seed alone; the 2048-deep HMAC term is compared by term identity and never sent to z3"],
     "stubs": ["WordList.words / WordList.lookup replaced by handle tables (token <-> symbolic index); the real WordList methods run on them; "
               "the table facts the handles assume are checked concretely in O3",
               "sha256 / HMAC-SHA512 / HMAC-SHA1 as hash-consed uninterpreted functions on symbolic input",
               "secp256k1 generator G replaced by a recorder (secret * G returns an opaque point)",
               "secrets.randbits and time.time return arbitrary symbolic values",
-              "pbkdf2.py: `b('').join(blocks)` is routed through the engine's bytes join by a source-level patch (same result on bytes)"],
+              "pbkdf2.py: `b('').join(blocks)` is routed through the engine's bytes join by a source-level patch (same result on bytes)",
+              "hd.hmac_sha512_kdf recorder (seam variant of O2-from-mnemonic only); HDPrivateKey.from_seed recorder (end-to-end variant only)"],
     "assumptions": ["BIP39 bit layout and RFC 8018 section 5.2 as transcribed in checks/c14.py spec_* functions",
                     "BIP32 master key generation: I = HMAC-SHA512(key='Bitcoin seed', data=seed), IL = secret (invalid if 0 or >= n), IR = chain code",
-                    "int(time()*1e6) < 2^63 in secure_mnemonic"],
+                    "int(time()*1e6) < 2^63 in secure_mnemonic",
+                    "a mismatch found on uninterpreted hashes is reported only when it reproduces with the real hashlib (replay)"],
 }
 
 MANIFEST = {"technique": "symbolic execution of the real BIP39 / PBKDF2 / HD functions: entropy bytes, word indices (through a handle word "
@@ -634,6 +645,7 @@ def _localise(a, b, c, label, wit):
     """the implementation made the PRF calls HASH_CALLS[a:b], the specification HASH_CALLS[b:c].  When the outputs are not
     identical terms, a small query on the first differing call yields a witness without sending the whole chain to z3.
     Returns True when a violation candidate was recorded (the replay on real hashes decides whether it is genuine)."""
+    sys.setrecursionlimit(max(sys.getrecursionlimit(), 60000))  # the arguments of a late call are deep terms
     impl = shims.HASH_CALLS[a:b]
     spec = shims.HASH_CALLS[b:c]
     for j in range(max(len(impl), len(spec))):
